@@ -126,7 +126,7 @@ def export_gltf(
     files = {}
 
     base64_buffer_format = "data:application/octet-stream;base64,{}"
-    if merge_buffers:
+    if merge_buffers and len(buffer_items) > 0:
         views = _build_views(buffer_items)
         buffer_data = b"".join(buffer_items.values())
         if embed_buffers:
